@@ -959,3 +959,88 @@ def rule_ret_top(prog, rep, tier, anchor="parser_utils._interpolate_return", emi
                 rep.holds("RET-TOP", inst, loc(prog, c), "top-level statements only")
     if n == 0:
         raise AnalysisError("RET-TOP: no search for a Return node found in %s" % anchor)
+
+
+# ---------------------------------------------------------------------------- KWARG-LAST
+def rule_kwarg_last(prog, rep, tier, anchor="parse.function", merge="parser_utils.ir_merge"):
+    """KWARG-LAST (C07, C03): a documented `**kwargs` ends up as the LAST parameter, as in the signature.  The signature
+    merge appends the parameters the docstring did not mention, so the documented kwargs entry has to be out of the
+    mapping while the merge runs (popped / deleted before) and inserted again afterwards, or moved to the end after the
+    merge.  A typestate over the events on the params mapping that involve the kwarg's name, in execution order."""
+    fi = prog.inl(prog.fn(anchor))
+    fd = fi.params()[0]
+
+    def is_kwarg_name(e, names):
+        if isinstance(e, ast.Attribute) and e.attr == "arg" and (isinstance(e.value, ast.Attribute) and e.value.attr == "kwarg" or isinstance(e.value, ast.Name) and e.value.id in names["obj"]):
+            return True
+        return isinstance(e, ast.Name) and e.id in names["name"]
+
+    names = {"obj": set(), "name": set(), "holder": set()}
+    for _ in range(3):
+        for st in ast.walk(fi.node):
+            if isinstance(st, ast.Assign):
+                tg, val = st.targets[0], st.value
+                pairs = list(zip(tg.elts, val.elts)) if isinstance(tg, ast.Tuple) and isinstance(val, ast.Tuple) and len(tg.elts) == len(val.elts) else [(tg, val)]
+                for t, v in pairs:
+                    if not isinstance(t, ast.Name):
+                        # holder[K] = ...
+                        if isinstance(t, ast.Subscript) and isinstance(t.value, ast.Name) and is_kwarg_name(t.slice, names):
+                            names["holder"].add(t.value.id)
+                        continue
+                    if isinstance(v, ast.Attribute) and v.attr == "kwarg" or (isinstance(v, ast.Call) and isinstance(v.func, ast.Name) and v.func.id == "getattr"
+                                                                              and len(v.args) >= 2 and isinstance(v.args[1], ast.Constant) and v.args[1].value == "kwarg"):
+                        names["obj"].add(t.id)
+                    elif is_kwarg_name(v, names):
+                        names["name"].add(t.id)
+    for st in ast.walk(fi.node):
+        # `for k in holder:` - the keys of the dict that carries the kwargs entry are kwarg names
+        if isinstance(st, (ast.For, ast.comprehension)) and isinstance(st.target, ast.Name) and isinstance(st.iter, ast.Name) and st.iter.id in names["holder"]:
+            names["name"].add(st.target.id)
+    aliases = {t.id for st in ast.walk(fi.node) if isinstance(st, ast.Assign) and _is_params_map(st.value) for t in st.targets if isinstance(t, ast.Name)}
+    events = []
+    for n in ast.walk(fi.node):
+        k = order_key_(n)
+        if isinstance(n, ast.Call) and isinstance(n.func, (ast.Name, ast.Attribute)):
+            if any(isinstance(t, FunctionInfo) and t.qualname == merge for t in prog.resolve_expr_fn(n.func, n)):
+                events.append((k, "MERGE", n))
+            elif isinstance(n.func, ast.Attribute) and n.func.attr == "pop" and n.args and is_kwarg_name(n.args[0], names) and _is_params_map(n.func.value, aliases):
+                events.append((k, "REMOVE", n))
+            elif isinstance(n.func, ast.Attribute) and n.func.attr == "move_to_end" and n.args and is_kwarg_name(n.args[0], names) and _is_params_map(n.func.value, aliases):
+                events.append((k, "MOVE_END", n))
+            elif isinstance(n.func, ast.Attribute) and n.func.attr == "update" and _is_params_map(n.func.value, aliases) and n.args:
+                a = n.args[0]
+                if isinstance(a, ast.Name) and a.id in names["holder"] or (isinstance(a, ast.Dict) and any(k_ is not None and is_kwarg_name(k_, names) for k_ in a.keys)):
+                    events.append((k, "INSERT", n))
+        elif isinstance(n, ast.Assign):
+            for t in n.targets:
+                if isinstance(t, ast.Subscript) and is_kwarg_name(t.slice, names) and _is_params_map(t.value, aliases):
+                    events.append((k, "INSERT", n))
+        elif isinstance(n, ast.Delete):
+            for t in n.targets:
+                if isinstance(t, ast.Subscript) and is_kwarg_name(t.slice, names) and _is_params_map(t.value, aliases):
+                    events.append((k, "REMOVE", n))
+    events.sort(key=lambda e: e[0])
+    kinds = [e[1] for e in events]
+    if "MERGE" not in kinds:
+        raise AnalysisError("KWARG-LAST: %s no longer merges the signature with %s" % (anchor, merge))
+    i = kinds.index("MERGE")
+    before, after = kinds[:i], kinds[i + 1:]
+    ok = ("MOVE_END" in after) or ("REMOVE" in before and "INSERT" in after and "INSERT" not in before[before.index("REMOVE"):])
+    desc = " -> ".join(kinds)
+    if ok:
+        rep.holds("KWARG-LAST", "%s: %s" % (anchor, desc), loc(prog, events[i][2]), "the documented **kwargs is out of the mapping during the merge and last afterwards")
+    else:
+        rep.violation(Finding("KWARG-LAST", anchor, "kwarg-not-last",
+                              "events on the parameter mapping for the documented **kwargs: %s.  The signature merge appends the parameters the docstring does not mention; unless "
+                              "the kwargs entry is taken out before and put back (or moved to the end) after it, undocumented parameters end up behind **kwargs" % (desc or "none"),
+                              loc(prog, events[i][2])))
+
+
+def order_key_(n):
+    from sa.model import order_key
+    return order_key(n) if hasattr(n, "lineno") else 0
+
+
+def _is_params_map(e, aliases=()):
+    """<ir>["params"] or a local bound to it"""
+    return (isinstance(e, ast.Subscript) and isinstance(e.slice, ast.Constant) and e.slice.value == "params") or (isinstance(e, ast.Name) and e.id in aliases)
